@@ -1,5 +1,5 @@
 (* SampleSize_proofs.v — lemmas about the model in SampleSize.v (property C16).  All inputs, no bounds on sizes. *)
-From SV Require Import SampleSize.
+From SV Require Import SampleSize NNM_spec.
 From Coq Require Import Lia Arith.
 Open Scope Q_scope.
 
@@ -520,7 +520,7 @@ Qed.
 Lemma km_nonanticipating : forall sqrtq N t u ro g, nonanticipating (hist sqrtq (mkcfg N t u ro (TKM g))).
 Proof.
   intros sqrtq N t u ro g k xs ys E _ _. unfold hist, run_test, kaplan_markov. simpl.
-  rewrite !firstn_map, !firstn_xcumprod, !firstn_map, E. reflexivity.
+  rewrite !firstn_map, !absorb_firstn, !firstn_xcumprod, !firstn_map, E. reflexivity.
 Qed.
 
 (* ===================================================================================================== assertion level *)
